@@ -194,20 +194,36 @@ def goAdd {T O : Type} [Codec T FX] [PAdd T T O] [Nums O FX] (a : Args) : String
   | some p, some q => verdict a (.nums (Nums.nums (PAdd.add p q : O))) (Mon.ops "add" (arg a "T") ((arg a "p").bind fxList? |>.getD []) ((arg a "q").bind fxList? |>.getD []) none)
   | _, _ => "bad args"
 
-def goAbsDiff {T : Type} [Codec T FX] [AbsDiffEq T FX] (a : Args) : String :=
+/-- the crate's own `==` (generated `PEq` instance) against what the implementation's `==` returned -/
+def eqAgrees (a : Args) (model : Bool) : Option String :=
+  match a.get "eq" with
+  | some "1" => if model then none else some "DISAGREE model-eq=0 (the generated PartialEq says the values differ, the implementation's == says equal)"
+  | some "0" => if model then some "DISAGREE model-eq=1 (the generated PartialEq says equal, the implementation's == says the values differ)" else none
+  | _ => none
+
+/-- a property failure found by a monitor has priority over the model/implementation disagreement about `==` -/
+def withEq (a : Args) (meq : Bool) (v : String) : String :=
+  if v.startsWith "MONFAIL" || v.startsWith "need" || v.startsWith "bad" then v else
+  match eqAgrees a meq with
+  | some bad => bad
+  | none => v
+
+def goAbsDiff {T : Type} [Codec T FX] [AbsDiffEq T FX] [PEq T] (a : Args) : String :=
   match (arg a "p").bind fxList? |>.bind (Codec.dec (T := T)), (arg a "q").bind fxList? |>.bind (Codec.dec (T := T)),
         (arg a "eps").bind fx? with
   | some p, some q, some eps =>
+    withEq a (PEq.peq p q) <|
     verdict a (.bool (AbsDiffEq.absDiffEq p q eps))
       (fun impl => (Mon.defaultsOk (arg a "deps") (arg a "dmr")).orElse fun _ =>
         (Mon.approxAbs ((arg a "p").bind fxList? |>.getD []) ((arg a "q").bind fxList? |>.getD []) eps impl).orElse fun _ =>
         Mon.eqImplies (arg a "eq") (((arg a "p").bind fxList? |>.getD []) ++ ((arg a "q").bind fxList? |>.getD [])) [eps] impl)
   | _, _, _ => "bad args"
 
-def goRelEq {T : Type} [Codec T FX] [RelativeEq T FX] (a : Args) : String :=
+def goRelEq {T : Type} [Codec T FX] [RelativeEq T FX] [PEq T] (a : Args) : String :=
   match (arg a "p").bind fxList? |>.bind (Codec.dec (T := T)), (arg a "q").bind fxList? |>.bind (Codec.dec (T := T)),
         (arg a "eps").bind fx?, (arg a "mr").bind fx? with
   | some p, some q, some eps, some mr =>
+    withEq a (PEq.peq p q) <|
     verdict a (.bool (RelativeEq.relativeEq p q eps mr))
       (fun impl => (Mon.defaultsOk (arg a "deps") (arg a "dmr")).orElse fun _ =>
         (Mon.approxRel ((arg a "p").bind fxList? |>.getD []) ((arg a "q").bind fxList? |>.getD []) eps mr impl).orElse fun _ =>
@@ -319,18 +335,20 @@ def goSegTranslate {T : Type} [Codec T FX] [Translate T FX] [Nums T FX] (a : Arg
   | some [sg], some v => verdict a (Out.ofSegs [Translate.translate sg v]) (Mon.pwOps "translate" (arg a "T") ([sg].map fun g => (g.end, Nums.nums g.poly)) ((arg a "v").bind fx?))
   | _, _ => "bad args"
 
-def goPwAbsDiff {T : Type} [Codec T FX] [AbsDiffEq T FX] [Nums T FX] (a : Args) : String :=
+def goPwAbsDiff {T : Type} [Codec T FX] [AbsDiffEq T FX] [Nums T FX] [PEq T] (a : Args) : String :=
   match (arg a "pw").bind (segs? (T := T)), (arg a "pw2").bind (segs? (T := T)), (arg a "eps").bind fx? with
   | some f, some g, some eps =>
+    withEq a (PEq.peq (Piecewise.mk f) (Piecewise.mk g)) <|
     verdict a (.bool (AbsDiffEq.absDiffEq f g eps))
       (fun impl => (Mon.defaultsOk (arg a "deps") (arg a "dmr")).orElse fun _ =>
         (Mon.approxAbsPw (f.map fun s => s.end :: Nums.nums s.poly) (g.map fun s => s.end :: Nums.nums s.poly) eps impl).orElse fun _ =>
         Mon.eqImplies (arg a "eq") ((f ++ g).flatMap fun s => s.end :: Nums.nums s.poly) [eps] impl)
   | _, _, _ => "bad args"
 
-def goPwRelEq {T : Type} [Codec T FX] [AbsDiffEq T FX] [RelativeEq T FX] [Nums T FX] (a : Args) : String :=
+def goPwRelEq {T : Type} [Codec T FX] [AbsDiffEq T FX] [RelativeEq T FX] [Nums T FX] [PEq T] (a : Args) : String :=
   match (arg a "pw").bind (segs? (T := T)), (arg a "pw2").bind (segs? (T := T)), (arg a "eps").bind fx?, (arg a "mr").bind fx? with
   | some f, some g, some eps, some mr =>
+    withEq a (PEq.peq (Piecewise.mk f) (Piecewise.mk g)) <|
     verdict a (.bool (RelativeEq.relativeEq f g eps mr))
       (fun impl => (Mon.defaultsOk (arg a "deps") (arg a "dmr")).orElse fun _ =>
         (Mon.approxRelPw (f.map fun s => s.end :: Nums.nums s.poly) (g.map fun s => s.end :: Nums.nums s.poly) eps mr impl).orElse fun _ =>
